@@ -55,9 +55,9 @@ ORACLE = {
     'newline_to_br': o_newline_to_br, 'lower': lambda s: s.lower(), 'upper': lambda s: s.upper(), 'capitalize': lambda s: s.capitalize(),
     'spacify': o_spacify, 'thousands_commas': o_thousands, 'sql_quote': o_sql_quote,
 }
-# the one fixed order (DT_Var documents the modifiers in this order; url_unquote(_plus) appear a second time at the end)
+# the one fixed order: each modifier is applied at most once
 ORDER = ['html_quote', 'url_quote', 'url_quote_plus', 'url_unquote', 'url_unquote_plus', 'newline_to_br', 'lower', 'upper', 'capitalize',
-         'spacify', 'thousands_commas', 'sql_quote', 'url_unquote', 'url_unquote_plus']
+         'spacify', 'thousands_commas', 'sql_quote']
 MODS = ['html_quote', 'url_quote', 'url_quote_plus', 'url_unquote', 'url_unquote_plus', 'newline_to_br', 'lower', 'upper', 'capitalize',
         'spacify', 'thousands_commas', 'sql_quote']
 
@@ -96,7 +96,7 @@ def make_pair_sym(a, b):
 
     def ob(s: str) -> bool:
         want = pipeline(s, (a, b))
-        return t1(x=s) == want and t2(x=s) == want and t3(x=s) == want and t4(x=s) == want
+        return t1(x=s) == want and t2(x=s) == want
     ob.__name__ = 'ob_pair_%s_%s' % (a, b)
     return ob
 
@@ -200,14 +200,15 @@ def ob_null(kind: int, defined: bool, n: int, s: str) -> bool:
     return T_BOTH(**ns) == ('NIL' if isnull else text.upper())
 
 
+NUMS = [0, 7, 42, 999, 12345, -3]
+
+
 def ob_null_fmt(n: int, isnone: bool) -> bool:
-    out = T_NULL_FMT(x=None if isnone else n)
+    v = NUMS[pick(n, len(NUMS))]
+    out = T_NULL_FMT(x=None if isnone else v)
     if isnone:
         return out == 'NIL'
-    if n < 0 or n > 999:
-        return True
-    d = '0123456789'
-    return out == d[n // 100] + d[(n // 10) % 10] + d[n % 10]
+    return out == '%03d' % v
 
 
 # ------------------------------------------------------------------ (d) modifier laws
@@ -236,52 +237,53 @@ T_THOU = cooked('<dtml-var x thousands_commas>')
 T_THOU_FMT = cooked('<dtml-var x fmt=comma-numeric>') if 'comma-numeric' in DT_Var.special_formats else None
 
 
-def make_thousands(ndig, prefix, tail):
-    def ob(d1: int, d2: int, d3: int, d4: int, d5: int, d6: int, d7: int, d8: int, d9: int, d10: int) -> bool:
-        ds = [d1, d2, d3, d4, d5, d6, d7, d8, d9, d10][:ndig]
-        digits = ''.join(chr(48 + d) for d in ds)
+PREFIXES = ['', '-', '$', '+', '-$']
+TAILS = ['', '.5', '.123456', '.']
+DIGITS = '9081726354' * 2
+
+
+def ob_thousands(nd: int, p: int, t: int, off: int) -> bool:
+    """numeric literals [sign/$] + n digits + [.tail]: exactly the integer part is grouped in threes from the right"""
+    n = pick(nd, 16) + 1
+    o = pick(off, 4)
+    digits = DIGITS[o:o + n]
+    if digits[0] == '0':
+        digits = '1' + digits[1:]
+    prefix, tail = PREFIXES[pick(p, len(PREFIXES))], TAILS[pick(t, len(TAILS))]
+    with NoTracing():
         s = prefix + digits + tail
         want = prefix + format(int(digits), ',') + tail
         out = T_THOU(x=s)
-        if out != want:
+        if out != want or out.replace(',', '') != s:
             return False
         if T_THOU_FMT is not None and T_THOU_FMT(x=s) != want:
             return False
-        return out.replace(',', '') == s
-    ob.__name__ = 'ob_thousands_%d' % ndig
-    return ob
-
-
-def ob_thousands_int(n: int) -> bool:
-    """an int value: the digits of str(n) are grouped"""
-    return T_THOU(x=n).replace(',', '') == str(n) and T_THOU(x=n) == format(n, ',')
+        if not tail and not prefix:
+            return T_THOU(x=int(digits)) == want          # an int value: str() form grouped
+        return True
 
 
 T_UQ, T_UQP = cooked('<dtml-var x url_quote>'), cooked('<dtml-var x url_quote_plus>')
 T_UU, T_UUP = cooked('<dtml-var x url_unquote>'), cooked('<dtml-var x url_unquote_plus>')
 
 
-def ob_url_roundtrip(s: str) -> bool:
-    for ch in s:
-        if 0xD800 <= ord(ch) <= 0xDFFF:
-            return True                           # lone surrogates cannot be url-quoted
-    return T_UU(x=T_UQ(x=s)) == s and T_UUP(x=T_UQP(x=s)) == s
+URLPOOL = [' ', '+', '%', '/', '&', '=', '?', 'a', 'é', '€', '\U0001F600', '\n', '%2', '%zz', '#', '~', '"', '%41', '%2B', "'", '<']
 
 
-URLPOOL = [' ', '+', '%', '/', '&', '=', '?', 'a', 'é', '€', '\U0001F600', '\n', '%2', '%zz', '#', '~', '"']
-
-
-def ob_url_roundtrip_pool(a: int, b: int, c: int) -> bool:
-    s = URLPOOL[pick(a, len(URLPOOL))] + URLPOOL[pick(b, len(URLPOOL))] + URLPOOL[pick(c, len(URLPOOL))]
-    with NoTracing():
-        q, qp = T_UQ(x=s), T_UQP(x=s)
-        if T_UU(x=q) != s or T_UUP(x=qp) != s:
-            return False
-        # quoted text is plain ASCII without blanks or reserved characters
-        for ch in q + qp:
-            if ord(ch) > 126 or ch in ' "<>&?#=':
+def make_url_pool(k):
+    def ob(a: int, b: int, c: int) -> bool:
+        idx = [pick(a, len(URLPOOL)), pick(b, len(URLPOOL)), pick(c, len(URLPOOL))][:k]
+        with NoTracing():
+            s = ''.join(URLPOOL[i] for i in idx)
+            q, qp = T_UQ(x=s), T_UQP(x=s)
+            if T_UU(x=q) != s or T_UUP(x=qp) != s:
                 return False
-        return T_UU(x=s.encode('utf-8') if False else q) == s
+            for ch in q + qp:                       # quoted text is plain ASCII without blanks or HTML/URL-reserved characters
+                if ord(ch) > 126 or ch in ' "<>&?#=\'':
+                    return False
+            return True
+    ob.__name__ = 'ob_url_pool_%d' % k
+    return ob
 
 
 T_SQL = cooked('<dtml-var x sql_quote>')
@@ -316,9 +318,11 @@ T_FMT_DOLLARS = cooked('<dtml-var x fmt=whole-dollars>|<dtml-var x fmt=dollars-a
 T_CFMT = cooked('%(x upper)5s|%(y)03d', String)
 
 
-def ob_pipe(s: str) -> bool:
-    want = o_truncate(o_spacify(s + '_end here').upper(), 9, '~')
-    return T_PIPE(x=s) == want
+def ob_pipe(j: int) -> bool:
+    s = POOL[pick(j, len(POOL))]
+    with NoTracing():
+        want = o_truncate(o_spacify(s + '_end here').upper(), 9, '~')
+        return T_PIPE(x=s) == want
 
 
 def ob_fmt_method(s: str) -> bool:
@@ -337,11 +341,14 @@ def ob_fmt_int(n: int) -> bool:
     return T_FMT_D(x=n) == ('%d ITEMS' % n) and T_FMT_DOLLARS(x=n) == '$%d|$%d.00' % (n, n)
 
 
-def ob_cfmt(s: str, n: int) -> bool:
-    if n < 0 or n > 999:
-        return True
-    d = '0123456789'
-    return T_CFMT(x=s, y=n) == ' ' * (5 - len(s)) + s.upper() + '|' + d[n // 100] + d[(n // 10) % 10] + d[n % 10]
+SHORT = ['', 'a', 'ab', 'Abc', 'abcde', 'abcdefg', 'ß', ' x']
+
+
+def ob_cfmt(j: int, n: int) -> bool:
+    s = SHORT[pick(j, len(SHORT))]
+    v = NUMS[pick(n, 4)]
+    with NoTracing():
+        return T_CFMT(x=s, y=v) == ' ' * (5 - len(s)) + s.upper() + '|' + '%03d' % v
 
 
 def explain(obname, args):
@@ -352,8 +359,8 @@ OBLIGATIONS = []
 NS = tier(3, 4)
 for _i, _a in enumerate(SYM_MODS):
     for _b in SYM_MODS[_i + 1:]:
-        OBLIGATIONS.append(Ob('pair_%s_%s' % (_a, _b), make_pair_sym(_a, _b), ['len(s) <= %d' % NS], timeout=tier(250, 900), stubs='relib-escape',
-                              data='value s: any str, len <= %d' % NS, selectors='modifiers %s, %s written in both orders (dtml, EPFS, entity forms)' % (_a, _b),
+        OBLIGATIONS.append(Ob('pair_%s_%s' % (_a, _b), make_pair_sym(_a, _b), ['len(s) <= %d' % tier(2, 3)], timeout=tier(280, 900),
+                              data='value s: any str, len <= %d' % tier(2, 3), selectors='modifiers %s, %s written in both orders' % (_a, _b),
                               outside='values longer than %d' % NS))
 OBLIGATIONS.append(Ob('pairs_pool', ob_pairs_pool, ['0 <= k < %d' % len(PAIRS), '0 <= j < %d' % len(POOL)], timeout=tier(280, 900), path_timeout=60,
                       data='-', selectors='every pair of the 12 modifiers (%d pairs) in both orders and three syntaxes x %d pool strings (untraced render per path)' % (len(PAIRS), len(POOL)),
@@ -366,24 +373,23 @@ for _z in tier((0, 1, 2, 3, 4, 5), tuple(range(0, 9))):
         OBLIGATIONS.append(Ob('trunc_size%d_%s' % (_z, _e), make_trunc(_z, _e), ['len(s) <= %d' % n], timeout=tier(250, 1200),
                               data='value s: any str, len <= %d' % n, selectors='size=%d etc=%s' % (_z, _e), outside='values longer than %d' % n))
 OBLIGATIONS.append(Ob('null_missing', ob_null, ['0 <= kind <= 6', 'len(s) <= 2'], timeout=tier(200, 600), data='value kind, definedness, s', selectors='null=/missing= with None, "", 0, [], str, 0.0, ()'))
-OBLIGATIONS.append(Ob('null_fmt', ob_null_fmt, timeout=tier(200, 600), data='int n, None bit', selectors='null= with a C-style fmt'))
+OBLIGATIONS.append(Ob('null_fmt', ob_null_fmt, ['0 <= n < %d' % len(NUMS)], timeout=tier(200, 600), data='None bit; number picked from %r' % NUMS, selectors='null= with a C-style fmt'))
 OBLIGATIONS.append(Ob('case_ascii', ob_case_ascii, ['len(s) <= 2', 'all(ord(ch) < 128 for ch in s)'], timeout=tier(280, 900), data='s: ASCII str len <= 2',
                       selectors='lower/upper/capitalize', outside='symbolic non-ASCII case mapping (see case_unicode pool)'))
 OBLIGATIONS.append(Ob('case_unicode', ob_case_unicode, ['0 <= a < 14', '0 <= b < 14', '0 <= c < 14'], timeout=tier(280, 900), data='-', selectors='3 characters from a pool of special-casing code points %r' % CASEPOOL))
 OBLIGATIONS.append(Ob('spacify', ob_spacify, ['len(s) <= %d' % tier(4, 5)], timeout=tier(200, 600), data='s any str', selectors='spacify'))
-DIG = ['1 <= d1 <= 9'] + ['0 <= d%d <= 9' % i for i in range(2, 11)]
-for _nd, _pre, _tail in ((4, '', ''), (7, '', ''), (5, '-', ''), (6, '$', '.50')) + tier((), ((10, '', ''), (9, '+', '.001'))):
-    OBLIGATIONS.append(Ob('thousands_%d%s' % (_nd, '_dec' if _tail else ('_sign' if _pre else '')), make_thousands(_nd, _pre, _tail), DIG, timeout=tier(280, 1200),
-                          data='%d symbolic decimal digits (first non-zero)' % _nd, selectors='numeric literal %r + digits + %r' % (_pre, _tail),
-                          outside='non-literal text around digits (the in-code doc example "12000 widgets" is not grouped by the code; the statement speaks of the integer part of a value)'))
-OBLIGATIONS.append(Ob('thousands_int', ob_thousands_int, ['0 <= n <= 99999'], timeout=tier(250, 900), data='int n 0..99999', selectors='int value through thousands_commas'))
-OBLIGATIONS.append(Ob('url_roundtrip', ob_url_roundtrip, ['len(s) <= 1'], timeout=tier(280, 900), data='s: any str, len <= 1', selectors='url_unquote(url_quote(s)) and the _plus pair',
-                      outside='symbolic strings longer than 1 (see pool obligation)'))
-OBLIGATIONS.append(Ob('url_roundtrip_pool', ob_url_roundtrip_pool, ['0 <= a < 17', '0 <= b < 17', '0 <= c < 17'], timeout=tier(280, 900), data='-', selectors='3 tokens from %r' % URLPOOL))
+OBLIGATIONS.append(Ob('thousands', ob_thousands, ['0 <= nd < 16', '0 <= p < %d' % len(PREFIXES), '0 <= t < %d' % len(TAILS), '0 <= off < 4'], timeout=tier(280, 900), path_timeout=60,
+                      data='-', selectors='numeric literals: 1..16 digits x prefixes %r x tails %r x 4 digit patterns (digit VALUES do not influence grouping; untraced per path)' % (PREFIXES, TAILS),
+                      outside='non-literal text around digits (the in-code doc example "12000 widgets" is not grouped by the code; the statement speaks of the integer part of a value)',
+                      stubs='render runs untraced once the literal is fixed on the path'))
+NP = len(URLPOOL)
+OBLIGATIONS.append(Ob('url_roundtrip_pool', make_url_pool(tier(2, 3)), ['0 <= a < %d' % NP, '0 <= b < %d' % NP, '0 <= c < %d' % NP], timeout=tier(280, 1200), path_timeout=60,
+                      data='-', selectors='%d tokens from %r (urllib on symbolic text does not finish: stated bound is this pool)' % (tier(2, 3), URLPOOL),
+                      stubs='render runs untraced once the string is fixed on the path'))
 OBLIGATIONS.append(Ob('sql_quote', ob_sql, ['len(s) <= %d' % tier(4, 5)], timeout=tier(280, 900), data='s any str', selectors='sql_quote safety and exact form'))
 OBLIGATIONS.append(Ob('sql_quote_bytes', ob_sql_bytes, ['len(s) <= 2'], timeout=tier(280, 900), data='s any str (encodable), passed as UTF-8 bytes', selectors='sql_quote on bytes'))
-OBLIGATIONS.append(Ob('pipeline', ob_pipe, ['len(s) <= 3'], timeout=tier(280, 900), data='s any str len <= 3', selectors='fmt="%s.." spacify upper size=9 etc'))
+OBLIGATIONS.append(Ob('pipeline', ob_pipe, ['0 <= j < %d' % len(POOL)], timeout=tier(200, 600), data='-', selectors='pool strings through fmt="%s_end here" spacify upper size=9 etc="~" (fmt, then modifiers, then truncation)'))
 OBLIGATIONS.append(Ob('fmt_method', ob_fmt_method, ['len(s) <= 3', 'all(ord(ch) < 128 for ch in s)'], timeout=tier(280, 900), data='s ASCII len <= 3', selectors='fmt=strip upper size=3'))
 OBLIGATIONS.append(Ob('fmt_len', ob_fmt_len, ['0 <= n <= 1200'], timeout=tier(280, 900), data='length 0..1200', selectors='fmt=collection-length thousands_commas'))
 OBLIGATIONS.append(Ob('fmt_int', ob_fmt_int, timeout=tier(250, 900), data='int n in -20..20', selectors='fmt="%d items" upper; whole-dollars; dollars-and-cents'))
-OBLIGATIONS.append(Ob('cfmt_epfs', ob_cfmt, ['len(s) <= 3', 'all(ord(ch) < 128 for ch in s)'], timeout=tier(280, 900), data='s ASCII len <= 3, n 0..999', selectors='EPFS %(x upper)5s|%(y)03d'))
+OBLIGATIONS.append(Ob('cfmt_epfs', ob_cfmt, ['0 <= j < %d' % len(SHORT), '0 <= n < 4'], timeout=tier(200, 600), data='-', selectors='EPFS %(x upper)5s|%(y)03d over short strings and numbers'))
